@@ -14,7 +14,8 @@ TIERS = {
     "thorough": {"runs": 100000, "max_wall": 3000, "minimise_s": 60, "chunk": 200},
 }
 FAULT_KINDS = ["save tick position", "clean stop/restart", "id space jump by presentation", "id request handled while a scheduled save is being written (pre-emptive schedule)",
-               "transient read error at start-up (retried)", "restart immediately after stop() returned (no settling)", "top of the id space (251..254)"]
+               "transient read error at start-up (retried)", "restart immediately after stop() returned (no settling)", "top of the id space (251..254)",
+               "stop() called from inside the event callback (on the poll thread) after an id was handed out"]
 REAL, STUBS, ASSUMPTIONS = netcheck.REAL, netcheck.STUBS, netcheck.ASSUMPTIONS
 REQUIRED_PROBES = ["ids_handed_out", "restarts_with_persistence", "id_space_exhausted"]
 WEIGHTS = {"idreq": 22, "adopt": 6, "present_node": 10, "present_child": 4, "value": 5, "advance": 10, "restart": 5,
@@ -80,6 +81,13 @@ def gen(rng, tier, index):
     elif cfg["persistence"] and rng.random() < 0.2:
         # an id request arrives at the moment stop() has written its final save
         ops.append(["restart", {"late_line": "255;255;3;0;3;"}])
+        ops.append(["line", "255;255;3;0;3;"])
+    elif cfg["persistence"] and rng.random() < 0.12:
+        # an id is handed out after the last scheduled save, and the application stops the gateway from inside the
+        # event callback of the next message (threaded flavours: stop() runs on the poll thread); restart; id request
+        ops.append(["advance", rng.choice([10.2, 10.5])])
+        ops.append(["line", "255;255;3;0;3;"])
+        ops.append(["stop_from_callback", rng.choice(["{n};255;3;0;11;bye", f"{rng.choice([82, 83])};255;0;0;17;2.0"])])
         ops.append(["line", "255;255;3;0;3;"])
     if "restart" not in [o[0] for o in ops]:
         ops.insert(rng.randrange(len(ops) // 2, len(ops)), ["restart"])
